@@ -337,13 +337,18 @@ func checkUntrustedCtor(c *fw.Ctx, short string, fn *ssa.Function) {
 		return false
 	}})
 	if !canonOK || cc == nil {
-		c.Fail(rule2, short+": the hash is checked on canonicalised bytes", c.P.Pos(hc.Pos()), "the content-hash check is not applied to the result of CanonicalJSONAssumeValid")
+		// positive evidence only: the bytes that are hashed are the input as received
+		if a, afr := rootOf(harg, hfr); afr == nil && isParam(a, outer, 0) {
+			c.Fail(rule2, short+": the hash is checked on canonicalised bytes", c.P.Pos(hc.Pos()), "the content-hash check is applied to the JSON as received, not to the canonicalised stripped bytes")
+		} else {
+			c.Undecided(rule2, short+": the hash is checked on canonicalised bytes", "the bytes given to the content-hash check could not be traced to CanonicalJSONAssumeValid")
+		}
 		return
 	}
 	c.Ok(rule2, short+": the hash is checked on canonicalised bytes", c.P.Pos(hc.Pos()), "")
 	pre := cc.Common().Args[0]
 	okStrip := fw.DerivesFromIn(pre, hfr, fw.FlowSpec{IsSource: fw.IsResultOf(fw.NameIs("github.com/tidwall/sjson.DeleteBytes"), 0)})
-	c.Check(okStrip, rule2, short+": the hashed bytes are the stripped input", c.P.Pos(cc.Pos()), "", "the canonicalised bytes do not derive from the key-stripping deletions")
+	c.Expect(okStrip, rule2, short+": the hashed bytes are the stripped input", c.P.Pos(cc.Pos()), "", "the canonicalised bytes could not be traced to the key-stripping deletions")
 	// stored eventJSON is the same value
 	okStore := false
 	for _, f := range []*ssa.Function{fn, outer} {
@@ -356,7 +361,7 @@ func checkUntrustedCtor(c *fw.Ctx, short string, fn *ssa.Function) {
 			}
 		}
 	}
-	c.Check(okStore, rule2, short+": the stored JSON is the hashed JSON", c.P.Pos(hc.Pos()), "", "the eventJSON kept on the event is not the value whose hash was checked")
+	c.Expect(okStore, rule2, short+": the stored JSON is the hashed JSON", c.P.Pos(hc.Pos()), "", "no store of the hashed value into eventJSON was recognised")
 	// decoded bytes: json.Unmarshal's input is the same stripped value
 	um := deepCallsTo(outer, fw.NameIs("encoding/json.Unmarshal"))
 	preRoot, _ := rootOf(pre, hfr)
